@@ -289,7 +289,9 @@ theorem exec_rest (conf : Conf) (s : ConnState) (b : Broker) (ps : List Bytes) (
       | (simp_all [fatal, done, panicStep]; done)
       | (have h2 := readMPUB_len _ _ _ _ _ ‹Mpub.readMPUB _ _ _ = Mpub.Res.ok _ _›
          have h1 := readLen_len _ _ _ ‹readLen _ = some _›
-         simp [done]; omega)
+         simp only [done, List.length_append, List.length_drop]
+         simp only [List.length_take] at h2
+         omega)
   · unfold dpub pubBody
     repeat' split
     all_goals simp_all [fatal, done, panicStep]
@@ -617,11 +619,12 @@ theorem exec_close (conf : Conf) (s : ConnState) (b : Broker) (ps : List Bytes) 
 /-- MPUB is all-or-nothing: either the whole decoded batch is enqueued (in order) and the answer
 is OK, or the answer is a fatal error and nothing is enqueued. -/
 theorem mpub_cases (conf : Conf) (s : ConnState) (b : Broker) (ps : List Bytes) (rest : Bytes) :
-    (∃ t n r bodies r2, ps[1]? = some t ∧ readLen rest = some (n, r) ∧
-        Mpub.readMPUB conf.maxMsgSize conf.maxBodySize r = .ok bodies r2 ∧
+    (∃ t n r bodies r2, ps[1]? = some t ∧ readLen rest = some (n, r) ∧ 1 ≤ n ∧ n ≤ conf.maxBodySize ∧
+        Mpub.readMPUB conf.maxMsgSize conf.maxBodySize (r.take n.toNat) = .ok bodies r2 ∧
         (mpub conf s b ps rest).reply = some .ok ∧ (mpub conf s b ps rest).ctl = .cont ∧
         (mpub conf s b ps rest).broker = publish b t (toMsgs bodies) ∧
-        (mpub conf s b ps rest).eff = [.enq t (toMsgs bodies)] ∧ (mpub conf s b ps rest).rest = r2) ∨
+        (mpub conf s b ps rest).eff = [.enq t (toMsgs bodies)] ∧
+        (mpub conf s b ps rest).rest = r2 ++ r.drop n.toNat) ∨
     (∃ c, (mpub conf s b ps rest).reply = some (.err c) ∧ (mpub conf s b ps rest).ctl = .close ∧
         Untouched b (mpub conf s b ps rest).broker ∧ (mpub conf s b ps rest).eff = []) := by
   unfold mpub
@@ -646,9 +649,26 @@ theorem mpub_cases (conf : Conf) (s : ConnState) (b : Broker) (ps : List Bytes) 
                 exact absurd hp (readMPUB_ne_panic _ _ _)
               · rename_i bodies r2 hm
                 left
-                exact ⟨t, n, r, bodies, r2, by simp, hl, hm, rfl, rfl, rfl, rfl, rfl⟩
+                exact ⟨t, n, r, bodies, r2, by simp, hl, by omega, by omega, hm, rfl, rfl, rfl, rfl, rfl⟩
   · right; exact ⟨_, rfl, rfl, Or.inl rfl, rfl⟩
 
+
+/-- An accepted MPUB consumed at most the body size it declared, and that size is within
+max-body-size (the reader handed to `readMPUB` is limited to the declared size). -/
+theorem mpub_ok_bounds (conf : Conf) (s : ConnState) (b : Broker) (ps : List Bytes) (rest : Bytes)
+    (n : Int) (r : Bytes) (hl : readLen rest = some (n, r)) (hok : (mpub conf s b ps rest).reply = some .ok) :
+    1 ≤ n ∧ n ≤ conf.maxBodySize ∧ ((r.length : Int) - ((mpub conf s b ps rest).rest.length : Int)) ≤ n := by
+  rcases mpub_cases conf s b ps rest with ⟨t, n', r', bodies, r2, _, hl', h1, h2, hm, _, _, _, _, hrest⟩ | ⟨c, hc, _⟩
+  · rw [hl] at hl'
+    simp only [Option.some.injEq, Prod.mk.injEq] at hl'
+    obtain ⟨rfl, rfl⟩ := hl'
+    have h3 := readMPUB_len _ _ _ _ _ hm
+    simp only [List.length_take] at h3
+    rw [hrest]
+    simp only [List.length_append, List.length_drop]
+    refine ⟨h1, h2, ?_⟩
+    omega
+  · rw [hc] at hok; simp at hok
 
 /-! ## What a connection is answered does not depend on the broker -/
 
